@@ -37,8 +37,8 @@ Qed.
 (* the code's chi2 = sum ((mmatrix . a) - bvec*sqivar)^2 is the weighted chi-square with weights sqivar^2 *)
 Lemma cc_chi2_is_chi2 A : forall sq b a, cc_chi2 A sq b a == chi2 (cc_data A sq b) a.
 Proof.
-  unfold cc_chi2, cc_data. induction A as [|r A IH]; intros [|s sq] [|y b] a; simpl; try reflexivity.
-  unfold vsum in *. simpl. rewrite IH. unfold sqr. ring.
+  unfold cc_data. induction A as [|r A IH]; intros [|s sq] [|y b] a; try reflexivity.
+  cbn [cc_chi2 map combine chi2 resid]. unfold sqr. rewrite Qred_correct, IH, dotr_correct. apply Qplus_comp; [ring | reflexivity].
 Qed.
 
 (* chi2_optimal: the returned coefficients minimise sum_i sqivar_i^2 (A_i . x - b_i)^2 over all x;
